@@ -171,7 +171,10 @@ def worker_main(argv):
     with open(spec_path) as f:
         spec = json.load(f)
     rec = Rec(check_id, spec)
+    reach = None
     try:
+        from . import probe
+        reach = probe.Reach().start()
         env.load()
         from . import contracts
         contracts.install(rec)
@@ -180,8 +183,13 @@ def worker_main(argv):
         contracts.harvest(rec)
     except BaseException:
         rec.inconcl('harness crashed in shard %s: %s' % (show(spec, 120), traceback.format_exc()[-1500:]))
+    d = rec.dump()
+    try:
+        d['reach'] = reach.stop() if reach is not None else {}
+    except Exception:
+        d['reach'] = {}
     with open(out_path, 'wb') as f:
-        pickle.dump(rec.dump(), f)
+        pickle.dump(d, f)
     return 0
 
 
@@ -190,8 +198,10 @@ def worker_main(argv):
 def _merge(dumps):
     m = {'evaluations': 0, 'counts': collections.Counter(), 'cover': collections.defaultdict(set), 'samples': [],
          'nontrivial': set(), 'violations': collections.OrderedDict(), 'viol_counts': collections.Counter(),
-         'foreign': collections.Counter(), 'inconclusive': [], 'series': {}}
+         'foreign': collections.Counter(), 'inconclusive': [], 'series': {}, 'reach': collections.defaultdict(set)}
     for d in dumps:
+        for f, ls in (d.get('reach') or {}).items():
+            m['reach'][f].update(ls)
         m['evaluations'] += d['evaluations']
         m['counts'].update(d['counts'])
         for k, v in d['cover'].items():
@@ -288,6 +298,30 @@ def write_replay(check_id, key, witness, tier, seed):
     return path
 
 
+def code_reached(reach):
+    """lines of hotxlfp's own source executed by this check's workload (sys.monitoring LINE witness in every worker), per file, with
+    the executable lines that were never reached - the places where a change would be invisible to this check"""
+    from . import probe
+    root = os.path.join(env.REPO, 'hotxlfp')
+    out, tot_x, tot_n = {}, 0, 0
+    for dirpath, _, files in os.walk(root):
+        for fn in sorted(files):
+            if not fn.endswith('.py') or fn == 'parsetab.py':
+                continue
+            rel = os.path.relpath(os.path.join(dirpath, fn), root)
+            try:
+                exe = probe.executable_lines(os.path.join(dirpath, fn))
+            except Exception:
+                continue
+            hit = set(reach.get(rel, ())) & exe
+            tot_x += len(hit)
+            tot_n += len(exe)
+            if exe:
+                out[rel] = {'executed': len(hit), 'executable': len(exe), 'never_reached': probe.ranges(exe - hit)}
+    out['_total'] = {'executed': tot_x, 'executable': tot_n}
+    return out
+
+
 def _jsonable(x):
     try:
         json.dumps(x)
@@ -371,6 +405,7 @@ def main_check(check_id, tier, seed, jobs=None, replay=None, inline=False, only=
             'inconclusive_reasons': inconcl[:20],
             'series': m['series'],
         }
+        cover['code_reached'] = code_reached(m['reach'])
         cover.update(check.extra(m) or {})
         ev = {'property_id': check.ID, 'tier': tier, 'seed': int(seed), 'level': check.LEVEL, 'coverage': cover,
               'assumptions': list(check.ASSUMPTIONS), 'wall_s': round(wall, 2), 'violations': int(nviol)}
